@@ -193,12 +193,15 @@ func init() {
 				u = append(u, shardUnits(DFSArg{Kind: "docstore", Writers: 3, Depth: 4, Alpha: "tiny"}, 48)...)
 				u = append(u, shardUnits(DFSArg{Kind: "docstore", Writers: 1, Depth: 4, Alpha: "keys"}, 16)...)
 				u = append(u, shardUnits(DFSArg{Kind: "docstore", Writers: 2, Depth: 5, Alpha: "tiny", Restart: true}, 32)...)
+				u = append(u, explore.ChunkUnits("typed", 8)...)
 				return u
 			}
 			u := shardUnits(DFSArg{Kind: "docstore", Writers: 2, Depth: 3, Alpha: "core"}, 32)
 			u = append(u, shardUnits(DFSArg{Kind: "docstore", Writers: 2, Depth: 4, Alpha: "tiny"}, 16)...)
 			u = append(u, shardUnits(DFSArg{Kind: "docstore", Writers: 1, Depth: 3, Alpha: "keys"}, 8)...)
 			u = append(u, shardUnits(DFSArg{Kind: "docstore", Writers: 2, Depth: 4, Alpha: "tiny", Restart: true}, 16)...)
+			u = append(u, shardUnits(DFSArg{Kind: "docstore", Writers: 2, Depth: 3, Alpha: "twokeys", Fault: true}, 8)...)
+			u = append(u, explore.ChunkUnits("typed", 4)...)
 			return u
 		},
 		Budget: func(tier string) float64 {
@@ -208,12 +211,26 @@ func init() {
 			return 150
 		},
 		RunUnit: func(c *explore.Ctx) {
+			if strings.HasPrefix(c.Spec.Unit.Arg, "typed") {
+				_, i, n := explore.ParseChunk(c.Spec.Unit.Arg)
+				var cases []explore.Case
+				depth := 3
+				if c.Spec.Tier == "thorough" {
+					depth = 4
+				}
+				for _, seq := range typedSequences(depth) {
+					seq := seq
+					cases = append(cases, explore.Case{ID: "typed " + strings.Join(seq, ";"), Nontrivial: len(seq) > 1, Run: func() (string, []explore.Violation) { return runC07Typed(seq) }})
+				}
+				explore.RunCases(c, "C07", cases, i, n)
+				return
+			}
 			runWritersDFS(c, "C07", func(a DFSArg) []WOp { return DocAlphabet(a.Alpha) }, func(w *Writers, a DFSArg) {
 				w.Oracles = append(w.Oracles, OracleDocs("C07"))
 			})
 		},
 		Assumptions: []string{
-			"environment is the deterministic simulation in /verif/mc/sim; documents are JSON maps keyed by _id (the store's default options)",
+			"environment is the deterministic simulation in /verif/mc/sim; documents are JSON maps keyed by _id (the store's default options), plus one family with typed documents decoded through a pointer-returning ItemFactory",
 			"search keys containing spaces and empty document keys are excluded, as the property excludes them",
 		},
 	})
